@@ -24,7 +24,7 @@ import re
 from .. import symx
 from ..core import (AnalysisIncomplete, call_name, const_value, kwarg,
                     params, u, walk_local)
-from ..patterns import (Cmp, calls_in, check_no_arg_mutation,
+from ..patterns import (Cmp, calls_in, check_no_arg_mutation, subscript_stores,
                         check_warn_calls, conjuncts, finfo, returns_of)
 from .msm_common import BU, LM
 from ..match import CS, _closed_over
@@ -973,7 +973,40 @@ def d1_no_exact_float_asserts(ck, mod, fn):
                  'the assertion compares a floating-point sum with a constant for EXACT equality: it fails '
                  'for most inputs purely through rounding of the final division (internal AssertionError '
                  'instead of a model)')
+        # zero-tolerance SIGN assertion on a cancellation-prone quantity (finding G4):
+        # inside the sweep, `assert E <= 0` / `E >= 0` against the literal 0 where E is a
+        # product/sum containing a DIFFERENCE of cells of arrays that the sweep itself
+        # updates (running row sums): the sign of such a difference is only exact up to
+        # rounding, so the assertion aborts on admissible counts
+        if not _in_loop(mod, s, fn):
+            continue
+        stored = {u(t.value) for st, t in subscript_stores(fn) if _in_loop(mod, st, fn)}
+        for c in conjuncts(s.test, True) or []:
+            if not isinstance(c, Cmp) or c.op not in (ast.Lt, ast.LtE, ast.Gt, ast.GtE):
+                continue
+            for val, other in ((c.lhs, c.rhs), (c.rhs, c.lhs)):
+                if const_value(other) not in (0, 0.0) or isinstance(const_value(other), bool):
+                    continue
+                e = fi.expand(val, strict=False)
+                diffs = [b for b in ast.walk(e) if isinstance(b, ast.BinOp) and isinstance(b.op, ast.Sub) and
+                         any(isinstance(x, ast.Subscript) and u(x.value) in stored for x in ast.walk(b))]
+                n += 1
+                ck.check(not diffs, 'C12.D1.no-zero-tolerance-sign-assert', mod, s, fn.name, u(s)[:140],
+                         'no sign assertion with zero tolerance on a difference of running sums',
+                         'the asserted quantity contains `%s`, a difference of cells the sweep updates incrementally; '
+                         'it is non-negative only up to rounding, so `%s` (literal 0, no tolerance) raises '
+                         'AssertionError for admissible counts (e.g. a state whose only neighbour is j) instead of returning a model'
+                         % (u(diffs[0])[:60] if diffs else '', u(s)[:60]))
     return n
+
+
+def _in_loop(mod, node, fn):
+    p = mod.parent.get(node)
+    while p is not None and p is not fn:
+        if isinstance(p, (ast.For, ast.While)):
+            return True
+        p = mod.parent.get(p)
+    return False
 
 
 # ---------------------------------------------------------------------------
